@@ -98,6 +98,7 @@ def combos(c, item):
     """sums over 1..4 parameters, through check_prior and through InferenceSetup.cost_function"""
     from bioscrape.pid_interfaces import PIDInterface
     idxs, xs, positive = item
+    flags = positive if isinstance(positive, (list, tuple)) else [positive] * len(idxs)
     F = families()
     prior = {}
     params = {}
@@ -107,9 +108,9 @@ def combos(c, item):
     for k, (fi, x) in enumerate(zip(idxs, xs)):
         fam = F[fi]
         nm = 'p%d' % k
-        prior[nm] = [fam[0]] + fam[1] + (['positive'] if positive else [])
+        prior[nm] = [fam[0]] + fam[1] + (['positive'] if flags[k] else [])
         params[nm] = x
-        e = expected(fam, x, positive)
+        e = expected(fam, x, flags[k])
         if e == 'underflow':
             return
         if e is None:
@@ -186,15 +187,15 @@ def run(ctx):
     for k in ((2, 3) if ctx.quick else (2, 3, 4)):
         for idxs in itertools.combinations(menu[:5] if k == 4 else menu, k):
             for xs in itertools.product(valmenu, repeat=k):
-                for pos in (False, True):
-                    cit.append((idxs, xs, pos))
+                for pos in itertools.product((False, True), repeat=k):      # every flag pattern, parameter by parameter
+                    cit.append((idxs, xs, list(pos)))
     pmap(combos, cit, ctx, nshards=64)
     pmap(cost, items, ctx, nshards=32)
     ctx.bounds = dict(families=len(F), single_items=len(items), combinations=len(cit))
     ctx.rule = ('E2, exhaustive over the stated alphabets: 7 prior families x parameter alphabets (%d parameterisations) x with/without the '
                 'positive flag x values (9 interior points, support edges +-{0,1e-9,1e-3}, negative values, 0, values > 1), through '
                 'PIDInterface.check_prior and through InferenceSetup.cost_function; all combinations of 2..4 parameters from a 7-family menu '
-                'x {inside, inside, negative} values. Oracle: scipy.stats logpdf summed over parameters where it is finite (1e-10), and a '
+                'x {inside, inside, negative} values x every per-parameter pattern of the positive flag. Oracle: scipy.stats logpdf summed over parameters where it is finite (1e-10), and a '
                 'non-finite log-prior / -inf cost where scipy gives -inf or +inf or the positive flag rejects. states = parameterisations; a '
                 'parameterisation is non-trivial when it has values inside and outside the support; each combination counts once.' % len(F))
     ctx.assumptions = ['values whose log-density is below -690 (density under the smallest double) are not compared', 'scipy.stats densities as the meaning of the prior names; gamma is (shape, rate), log-gaussian is lognormal(mu, sigma)']
